@@ -187,7 +187,7 @@ def run_workers(exe, variant, prop, tier, seed, ncases, budget_s, collect):
         idx = list(range(w, ncases, nworkers))
         workers.append(Worker(exe, prop, tier, seed, idx, w, variant, scratch))
     t0 = time.time()
-    stalled_limit = 200 if variant == "vg" else 40
+    stalled_limit = 200 if variant == "vg" else 60
     timed_out = False
     while True:
         alive = False
@@ -475,8 +475,8 @@ def check(prop, tier):
             continue
         kk0 = key_matches(pre, known) if pre else None
         st, gkey, path, detail = gate(exes[variant], prop, tier, seed, idx, alt, pre, shrink=(kk0 is None and len(reported) < 3))
-        if st == "no-repro" and rc == "watchdog":
-            notes.append(f"NOTE watchdog hit on case {idx} did not reproduce on replay (not a violation)")
+        if rc == "watchdog" and (st == "no-repro" or (st == "nondeterministic" and "timeout" in str(detail))):
+            notes.append(f"NOTE watchdog hit on case {idx} did not reproduce on replay (slow under load, not a violation)")
             continue
         if st != "ok":
             harness_problem.append(f"gate {st} for crash in case {idx} alt {alt} (rc={rc}): {detail}")
